@@ -4,6 +4,8 @@ package main
 
 import (
 	"fmt"
+	"os"
+	"strings"
 	"sync"
 	"sync/atomic"
 	"unicode/utf8"
@@ -35,6 +37,11 @@ func (c *Ctx) runJobs(jobs []job, each func(jc *jobCase) (int64, int64, *Violati
 	for ji := range jobs {
 		jb := &jobs[ji]
 		famName := fmt.Sprintf("%s opts=%q %s L<=%d%s", jb.fam, string(jb.opts), jb.prof.name, jb.maxL, jb.tag)
+		if only := os.Getenv("VERIF_ONLY_FAM"); only != "" && !strings.Contains(famName, only) {
+			// triage aid: restrict a run to the families whose name contains the given text
+			c.NotExhaustive("family filter VERIF_ONLY_FAM skipped " + famName)
+			continue
+		}
 		if c.Expired() {
 			c.NotExhaustive("internal deadline reached before " + famName)
 			continue
